@@ -240,9 +240,25 @@ fn time_src_job(src: Src, len: usize, devs: u32, jumps: Vec<u64>) -> Job {
       .on_error_map(inf)
       .actual_subscribe(other.clone());
     r.subscribe(&pipe);
+    // the executor may get its first chance to poll anything only some ticks
+    // after the subscription was made
+    let late = ch.choose(3) as u64;
+    ch.label(|| format!("executor starts {late} ticks after subscription"));
+    r.world.skew(late);
     r.world.settle();
-    let mut hist: Vec<String> = vec![];
-    let mut jumped = false;
+    let mut hist: Vec<String> = vec![format!("late-start({late})")];
+    // interval arms its first timer at subscription: a late start that is still
+    // before the first due time must not shift any tick. One-shot timers arm on
+    // their first poll, for them a late start counts like a jump.
+    let first_due: u64 = match &src {
+      Src::Interval(p) => *p,
+      Src::IntervalAt(off, _) => (*off).max(0) as u64,
+      _ => 0,
+    };
+    let mut jumped = late > 0 && late >= first_due.max(1);
+    if matches!(src, Src::Timer(..) | Src::TimerAt(..)) && late > 0 {
+      jumped = true;
+    }
     for _ in 0..len {
       world::bump_step();
       match env_step(&r.world, ch, &jumps, 0) {
